@@ -127,6 +127,11 @@ def run_config(case, monitor_reads=False, calls=None):
         obs["info"] = await C.do_call(world, "read_device_info", inv.read_device_info)
         if obs["info"]["outcome"] != "result":
             return
+        if case["seed"] % 3 == 2:
+            # ... or the refresh FAILS (inverter silent for all retries): the object keeps what it knew
+            world.net.begin_script([], {"k": "drop"})
+            await C.do_call(world, "read_device_info", inv.read_device_info)
+            world.net.begin_script([], {"k": "ok"})
         if case["seed"] % 3 == 1:
             # applications re-read the device info (reconnect, periodic refresh): same inverter, same outcome
             again = await C.do_call(world, "read_device_info", inv.read_device_info)
